@@ -9,7 +9,8 @@ default := - | dv value | dl literal | lg value
 def     := sc <Scalar> | en <enum> | io <oneOf:0|1> <n> (<str> type default)*
 typemap := <n> (<str> def)*
 vars    := - | + <n> (<str> type (- | literal) value)* <m> (<str> value)*
-ops     : cv conv typemap type value | vv … | tl … | cl conv typemap vars type literal | vl …
+fvars   := - | + <n> <str>* <m> (<str> value)*   (fragment-declared names; their coerced values)
+ops     : cv conv typemap type value | vv … | tl … | cl conv typemap vars fvars type literal | vl …
           gv conv typemap <n> (<str> (- | type) (- | literal))* value(dict)
 -/
 
@@ -75,6 +76,22 @@ def pVars : P (Option VarValues) := fun ts => do
     pure (some ⟨srcs, co⟩, ts)
   | _ => none
 
+/-- fvars := - | + <n> <str>* <m> (<str> value)* -/
+def pFragVars : P (Option FragVarValues) := fun ts => do
+  let (t, ts) ← pTok ts
+  match t with
+  | "-" => pure (none, ts)
+  | "+" => do
+    let (n, ts) ← pNat ts
+    let (srcs, ts) ← pCount pStr n ts
+    let (m, ts) ← pNat ts
+    let (co, ts) ← pCount (fun ts => do
+      let (k, ts) ← pStr ts
+      let (v, ts) ← pVal ts
+      pure ((k, v), ts)) m ts
+    pure (some ⟨srcs, co⟩, ts)
+  | _ => none
+
 def pVarDef : P VarDef := fun ts => do
   let (k, ts) ← pStr ts
   let (t, ts) ← pOpt pType ts
@@ -118,7 +135,11 @@ def step (line : String) : String :=
       else if op == "cl" || op == "vl" then
         match pVars rest with
         | none => "bad-vars"
-        | some (vars, rest) =>
+        | some (vars0, rest) =>
+          match pFragVars rest with
+          | none => "bad-fragvars"
+          | some (fvars, rest) =>
+          let vars := scopeVars vars0 fvars
           match pType rest with
           | none => "bad-type"
           | some (t, rest) =>
